@@ -18,7 +18,9 @@ const c17decl = `(struct T [(field A: int64 e:0)])
 (struct S [(field X: int64 e:0) (field N: string e:1) (field F: float64 e:2) (field B: bool e:3) (field L: ([]string) e:4) (field P: (* S) e:5) (field O: T e:6)])
 (def t1 (T A: 1))
 (def c (S X: 1))
-(def other (S X: 2))`
+(def other (S X: 2))
+(struct E [])
+(def e1 (E))`
 
 // declared kinds per struct version
 var c17kinds = map[string]map[string]string{
@@ -76,6 +78,10 @@ func c17ops() []c17opT {
 			c17opT{fmt.Sprintf("unmsgpack/%d", i), fmt.Sprintf("(def c (unmsgpack rawm%d))", i), false})
 		_ = j
 	}
+	// a struct declared without fields, later redeclared with one: the old instance keeps having none
+	ops = append(ops, c17opT{"redeclare-E", `(struct E [(field big: bool e:0)])`, false},
+		c17opT{"e1-hset", `(hset e1 big: true)`, false}, c17opT{"e1-infix", `{e1.big = true}`, false},
+		c17opT{"e1-through-pointer", `(hset (* (& e1)) big: true)`, false})
 	ops = append(ops, c17opT{"give-O", `(hset c O: (T A: 3))`, true})
 	ops = append(ops, c17opT{"redeclare", `(struct S [(field X: string e:0) (field N: string e:1)])`, false},
 		c17opT{"roundtrip-json", `(def c (unjson (json c)))`, false}, c17opT{"roundtrip-msgpack", `(def c (unmsgpack (msgpack c)))`, false},
@@ -261,6 +267,11 @@ func c17run(c *engine.Ctx, ops []c17opT, hist []int, record bool) (string, bool)
 			if !r.OK() && before != after {
 				viol("rejected-write-changed-instance", fmt.Sprintf("the operation failed (%s) but the instance changed from %s to %s", clipS(r.Err, 100), before, after))
 			}
+			if e1 := zy.Eval(env, "e1"); e1.OK() {
+				if h, ok := e1.Sexp.(*zygo.SexpHash); ok && len(h.KeyOrder) > 0 {
+					viol("invariant-empty-struct", fmt.Sprintf("e1 was created when E had no fields, now it is %s", e1.Short()))
+				}
+			}
 			if breach := c17inspect(env, version); breach != "" {
 				viol("invariant", fmt.Sprintf("after the operation (result %s) the instance is %s: %s", clipS(r.Short(), 40), after, breach))
 			}
@@ -269,7 +280,7 @@ func c17run(c *engine.Ctx, ops []c17opT, hist []int, record bool) (string, bool)
 			}
 		}
 	}
-	key := version + "|" + current + "|" + c17render(env, "c") + "|" + c17render(env, "t1")
+	key := version + "|" + current + "|" + c17render(env, "c") + "|" + c17render(env, "t1") + "|" + c17render(env, "e1") + "|" + c17render(env, "(str E)")
 	if record {
 		c.Outcome(lastName + "|" + key)
 	}
